@@ -156,6 +156,25 @@ func rawVerify(alg int, k keyDef, msg, sig []byte) bool {
 
 const jwtNow = 1700000000
 
+// spellNumber writes the positive integer v (>= 10) as a JSON number whose integer part is v:
+// 0: "v", 1: "v.0", 2: "v.5", 3: "d.ddde+k" (exact), 4: "d.ddd5e+k" (v.5 in exponent form), 5: "v000e-3"
+func spellNumber(v int64, sp int) string {
+	d := strconv.FormatInt(v, 10)
+	switch sp {
+	case 1:
+		return d + ".0"
+	case 2:
+		return d + ".5"
+	case 3:
+		return d[:1] + "." + d[1:] + "e+" + strconv.Itoa(len(d)-1)
+	case 4:
+		return d[:1] + "." + d[1:] + "5E" + strconv.Itoa(len(d)-1)
+	case 5:
+		return d + "000e-3"
+	}
+	return d
+}
+
 func genJWT(r *hv.Rng) (string, hv.Val) {
 	set := r.Intn(len(keySets))
 	keys := keySets[set]
@@ -183,7 +202,7 @@ func genJWT(r *hv.Rng) (string, hv.Val) {
 	}
 	hdr := map[string]interface{}{"typ": "JWT", "alg": algNames[alg]}
 	claims := map[string]interface{}{"sub": "u"}
-	cl := [3][2]int64{}
+	cl := [3][3]int64{}
 	names := []string{"exp", "iat", "nbf"}
 	for j := 0; j < 3; j++ {
 		if r.Chance(1, 2) {
@@ -201,15 +220,20 @@ func genJWT(r *hv.Rng) (string, hv.Val) {
 			if j > 0 && r.Chance(2, 3) { // iat/nbf mostly in the past
 				v = jwtNow - int64(r.Range(0, 5000))
 			}
-			claims[names[j]] = v
-			cl[j] = [2]int64{1, v}
+			// every JSON spelling of the NumericDate: integer, trailing .0, a fraction, exponent forms
+			sp := 0
+			if r.Chance(1, 3) {
+				sp = r.Range(1, 5)
+			}
+			claims[names[j]] = json.Number(spellNumber(v, sp))
+			cl[j] = [3]int64{1, v, int64(sp)}
 			switch r.Intn(24) {
 			case 0: // the number 0: jwt-go treats it as "not set"
 				claims[names[j]] = 0
-				cl[j] = [2]int64{1, 0}
+				cl[j] = [3]int64{1, 0, 0}
 			case 1: // a string instead of a NumericDate: ignored by jwt-go
 				claims[names[j]] = fmt.Sprint(v)
-				cl[j] = [2]int64{2, 0}
+				cl[j] = [3]int64{2, 0, 0}
 			}
 		}
 	}
@@ -297,7 +321,7 @@ func genJWT(r *hv.Rng) (string, hv.Val) {
 	}
 	clv := hv.L{}
 	for j := 0; j < 3; j++ {
-		clv = append(clv, hv.L{hv.Z(cl[j][0]), hv.Z(cl[j][1])})
+		clv = append(clv, hv.L{hv.Z(cl[j][0]), hv.Z(cl[j][1]), hv.Z(cl[j][2])})
 	}
 	// extra column (ignored by the model): the key set index
 	route := 0
